@@ -31,7 +31,15 @@ type TileLog struct {
 	notFound int
 	other    int
 	hold     bool // answer 503 to everything (log unavailable)
+	hangTile int  // > 0: the n-th tile request from now is accepted and never answered (until the client gives up)
+	hung     int
 }
+
+// HangTile makes the n-th tile request from now (n >= 1) hang until its request context ends.
+func (l *TileLog) HangTile(n int) { l.mu.Lock(); l.hangTile = n; l.mu.Unlock() }
+
+// Hung reports how many tile requests were left hanging so far.
+func (l *TileLog) Hung() int { l.mu.Lock(); defer l.mu.Unlock(); return l.hung }
 
 // NewTileLog creates a stub log publishing size 0 of tree t.
 func NewTileLog(origin string, key *refnote.SignKey, t *reftree.Tree, sumdb bool) *TileLog {
@@ -132,6 +140,18 @@ func (l *TileLog) RoundTrip(q *http.Request) (*http.Response, error) {
 		l.other++
 		return mk(404, nil)
 	}
+	if l.hangTile > 0 {
+		l.hangTile--
+		if l.hangTile > 0 {
+			goto serve
+		}
+		l.hung++
+		l.mu.Unlock()
+		<-q.Context().Done()
+		l.mu.Lock()
+		return nil, q.Context().Err()
+	}
+serve:
 	parts = parts[1:]
 	if l.SumDB {
 		if parts[0] != "8" {
